@@ -5,6 +5,23 @@ CLAIMED = {
    text="For all expressions and all histories at once: no write performed by one evaluation can be read by another, because every evaluation runs on a fresh clone with zero state, shared closures write nothing and never iterate a captured query, and there is no other mutable package state. This is the property static analysis fits best; it is decided as a non-interference argument over all run-time stores of the package, not sampled.",
    note=TB),
 }
+CLAIMED["C05"] = dict(
+   technique="static non-interference + lockset analysis on go/ssa: the C04 rule set over run-time code, a write census of build-time code (concurrent Compile), and a lock-state data-flow over the pattern cache (K-LOCK)",
+   text="Race freedom is decided as the absence of any store to memory reachable from two evaluations or two Compile calls, for all schedules at once; the only shared mutable structure (the pattern cache) is decided by a lockset data-flow. Isolation (each call returns what it would alone) follows from the C04 non-interference argument.",
+   note=TB + " Not decided: races inside a user-supplied NodeNavigator or a client-replaced RegexpCache.")
+CLAIMED["C02"] = dict(
+   technique="typestate/reset analysis on go/ssa: every state field of every query type is re-armed by Evaluate on all paths or guard-reset in Select (S-RESET), resets propagate to sub-queries (S-PROP), function arguments are evaluated on private clones (S-SHARED)",
+   text="Decides the history clause of the property for all candidate sequences: no iterator state reachable from a predicate survives the per-candidate Evaluate, so the verdict for a candidate is a function of the candidate alone. Does not decide that the per-candidate value is the XPath boolean value.",
+   note=TB + " Exemptions (reported as not judged, never as discharged): filterQuery.posit/positmap, lastFuncQuery.buffer/counted, booleanQuery.iterator — positional predicates on filter expressions, outside the property's fragment.")
+CLAIMED["C06"] = dict(
+   technique="static totality analysis: who-may-call + recover-closure path check (T-RECOVER), return-shape check (T-SHAPE), call-graph cycle analysis modulo recognised depth guards (T-DEPTH), CFG-cycle progress analysis of scanner/parser loops (T-LOOP)",
+   text="For all input strings: every panic below Compile is converted into a non-nil error whatever its type, results have the (expr,nil)/(nil,err) shape, every build-time recursion passes a depth guard (no unrecoverable stack exhaustion) and every way round every scanner/parser loop consumes input (termination).",
+   note=TB + " Not decided: memory exhaustion on huge inputs; quality of error messages.")
+CLAIMED["C16"] = dict(
+   technique="lockset data-flow, dominance and edge-condition analysis of loadingCache.get on go/ssa (K-LOCK, K-NEG, K-CAP, K-KEY), data-flow check of the constant-pattern precheck (K-PRE)",
+   text="For all key sequences, capacities and schedules: the cache returns the compilation of exactly the requested key, never inserts beyond capacity (the insertion is only entered by edges implying cap<=0 or len<cap inside one critical section), never stores a failed load, and every access to its mutable fields holds the right lock; constant patterns of matches()/replace() are compiled at Compile time.",
+   note=TB + " Not decided: the $n -> ${n} rewriting of replace() beyond its loop bounds; a client-replaced RegexpCache.")
+
 NOT_APPLICABLE = {p: "check not built yet in this session (planned, see DESIGN.md §3)" for p in
-  ["C01","C02","C03","C05","C06","C07","C08","C09","C10","C11","C12","C13","C14","C15","C16","C17"]}
+  ["C01","C03","C07","C08","C09","C10","C11","C12","C13","C14","C15","C17"]}
 NOTES = "All checks are static (family: static analysis). ./check.sh <id> [quick|thorough] loads /repo's working tree on every run. known_findings.json lists genuine defects (known/fixed). See DESIGN.md."
